@@ -247,7 +247,19 @@ pub fn run(tier: Tier) -> i32 {
     rep.guard("baseline observations are reproducible", again.baseline == model.baseline);
     let distinct: std::collections::BTreeSet<&String> = model.baseline.iter().collect();
     rep.guard("operations have many distinct observations", distinct.len() >= 12);
-    let checker = model.clone().checker().threads(16).spawn_bfs().join();
+    let mut checker = model.clone().checker().threads(16).spawn_bfs().join();
+    if let Some(path) = checker.discovery("last operation answers as on a fresh history; inputs unchanged") {
+        // A discovery must reproduce when the history is replayed alone.  If it does not, the
+        // histories replayed concurrently by the checker's worker threads interfered with each
+        // other (shared mutable state across threads -- C16's subject, not a history dependence):
+        // decide C13 again with a single worker.
+        let acts: Vec<u8> = path.into_actions();
+        if model.judge(&acts).is_none() {
+            println!("note: a discovery of the parallel search did not reproduce sequentially (cross-thread interference); re-deciding with one worker");
+            st.count("parallel_discovery_not_reproducible_rerun_single_threaded", 1);
+            checker = model.clone().checker().threads(1).spawn_bfs().join();
+        }
+    }
     st.states = checker.unique_state_count() as u64;
     st.transitions = checker.state_count() as u64;
     st.validated = st.states;
